@@ -156,6 +156,7 @@ CORPUS = {
                                               '        emitted = [f for _, f in sorted(self.data.functions.items()) if f.is_called and not f.is_constexpr]\n        for func in emitted:\n            if func.node is not None:\n                func.add_ra_instructions(self.data.options)\n        self.code = [line for func in emitted for line in func.code]\n')]),
     ],
     "C08": [
+        M("hex-spelling-for-any-size", U, [("    if value <= 10000 or value in _all_hashes or value >= 2**53:\n", "    if value <= 10000 or value in _all_hashes:\n")], ["R08.g"]),
         M("wrong-fold-constant", U, [("val = (val ^ 0x80000000) - 0x80000000", "val = (val ^ 0x80000000) - 0x8000000")], ["R08.a"]),
         M("unsigned-hash", U, [("    val = (val ^ 0x80000000) - 0x80000000\n", "    val = val & 0xFFFFFFFF\n")], ["R08.a"]),
         M("hash-of-latin1-bytes", U, [("zlib.crc32(name.encode())", 'zlib.crc32(name.encode("latin-1"))')], ["R08.a"]),
